@@ -294,11 +294,26 @@ pub fn c06(cfg: &J) {
             Some(Obj::Guard(g)) => g as *const metrique::FlushGuard as usize,
             _ => panic!("HARNESS: format needs a held flush guard, {name} is none"),
         };
+        let marker = flags.shadow.clone();
         thread::spawn(move || {
             // SAFETY: the guard lives in `objs` on main's stack until after this thread is joined
             let g: &metrique::FlushGuard = unsafe { &*(addr as *const metrique::FlushGuard) };
-            let text = format!("{g:?}");
-            assert!(!text.is_empty());
+            // every piece the formatter writes is a scheduler-visible step (a writer that may be
+            // slow: a pipe, a logger): whatever the Debug impl holds while it writes, it holds
+            // across a scheduling point
+            struct VisibleWriter(LArc<Shadow>, usize);
+            impl std::fmt::Write for VisibleWriter {
+                fn write_str(&mut self, s: &str) -> std::fmt::Result {
+                    self.0.touch();
+                    self.1 += s.len();
+                    Ok(())
+                }
+            }
+            // (the marker is the one every drop touches when it starts: the writes are dependent
+            // steps with the drops, so the drops are also scheduled in between them)
+            let mut w = VisibleWriter(marker, 0);
+            std::fmt::Write::write_fmt(&mut w, format_args!("{g:?}")).unwrap();
+            assert!(w.1 > 0);
         })
     });
     for h in handles {
